@@ -51,6 +51,9 @@ def slot_code(kind, k, rng):
     if kind == 'cmp16':
         row = e1prop.ROWS[rng.choice(('TST_T1_dp', 'CMP_T1_dp', 'CMN_T1_dp'))][1]
         return T16(row.build(**{l: rng.getrandbits(len(p)) for l, p in row.fields.items()}))
+    if kind in ('udiv0', 'sdiv0'):
+        # UDIV / SDIV Rk, Rk, R12 with R12 = 0: on the 7-R profile with SCTLR.DZ the divide traps - only if its condition passes
+        return T16((0xFBB0F0F0 if kind == 'udiv0' else 0xFB90F0F0) | (r << 16) | (r << 8) | 12, True)
     if kind == 'mov32':
         return T16(0xF04F0000 | (r << 8) | (0x20 + k), True)       # MOV.W Rk,#imm
     if kind == 'adds32':
@@ -85,7 +88,7 @@ def slot_code(kind, k, rng):
 ALU16 = ['LSL_imm_T1', 'LSR_imm_T1', 'ASR_imm_T1', 'ADD_reg_T1', 'SUB_reg_T1', 'ADD_imm_T1', 'SUB_imm_T1', 'MOV_imm_T1', 'ADD_imm_T2', 'SUB_imm_T2'] + \
     [n + '_T1_dp' for n in ('AND', 'EOR', 'LSL', 'LSR', 'ASR', 'ADC', 'SBC', 'ROR', 'RSB', 'ORR', 'MUL', 'BIC', 'MVN')]
 assert all(n in e1prop.ROWS for n in ALU16)
-MID = ['alu16', 'alu16', 'alu16', 'cmp16', 'movs16', 'adds16', 'lsls16', 'mov32', 'adds32', 'cmp', 'ldr', 'str', 'svc', 'udf', 'ldr_abort', 'nop32', 'msr', 'clrex']
+MID = ['alu16', 'alu16', 'alu16', 'cmp16', 'udiv0', 'sdiv0', 'movs16', 'adds16', 'lsls16', 'mov32', 'adds32', 'cmp', 'ldr', 'str', 'svc', 'udf', 'ldr_abort', 'nop32', 'msr', 'clrex']
 LAST = MID + ['b', 'bx', 'pop_pc']
 
 
@@ -102,6 +105,10 @@ def build_case(rng, cfgname, fc, mask, nzcv, kinds, te, handler):
     st_['sctlr'] = (st_['sctlr'] & ~((1 << 30) | (1 << 13) | (1 << 1))) | (te << 30) | (1 << 22 if case['cfg'].get('arch_version', 6) >= 6 else 0)
     st_['vbar'] = 0
     st_['scr'] = 0
+    if case['cfg'].get('is_armv7r_profile'):
+        st_['sctlr'] |= rng.getrandbits(1) << 19          # SCTLR.DZ
+    st_['R.R12usr'] = 0
+    st_['R.R12fiq'] = 0
     mode = gen.MODE_NAME[st_['cpsr'] & 31]
     st_[gen.bank_key(6, mode)] = gen.DATA[0] + 0x40
     st_[gen.bank_key(7, mode)] = 0x60000001 if 'abort' in ''.join(kinds) else gen.DATA[0] + 0x80
@@ -192,10 +199,10 @@ def shard_programs(seed, examples):
             kinds.append(pool[ks[i] % len(pool)])
         rng = random.Random(entropy)
         handler = (('subs0', 'subs2')[hsel & 1], ('subs4', 'subs0', 'subs2')[hsel % 3])
-        case, n = build_case(rng, ('v6', 'v7', 'v7')[ci], fc, mask, nzcv, kinds, te, handler)
+        case, n = build_case(rng, ('v6', 'v7', 'v7r')[ci], fc, mask, nzcv, kinds, te, handler)
         used = kinds[:n]
         info = {'firstcond': fc, 'mask': mask, 'nzcv': nzcv, 'n': n, 'kinds': used, 'has_else': bin(mask).count('1') > 1 and n >= 2,
-                'flags_inside': any(k in ('cmp', 'cmp16', 'adds32', 'msr') for k in used), 'exception_inside': any(k in ('svc', 'udf', 'ldr_abort') for k in used),
+                'flags_inside': any(k in ('cmp', 'cmp16', 'adds32', 'msr') for k in used), 'exception_inside': any(k in ('svc', 'udf', 'ldr_abort', 'udiv0', 'sdiv0') for k in used),
                 'thumb_handlers': te}
         for k in used:
             acc.cls('slot:' + k)
